@@ -158,6 +158,7 @@ fn empty_strings(op: &mut Op) {
         Op::StreamBefore(v, _) | Op::StreamAfter(v, _) | Op::StreamReplace(v, _) => v.iter_mut().for_each(|s| s.clear()),
         Op::OnEndTag(ops) => ops.iter_mut().for_each(empty_strings),
         Op::SetAttr(_, v) => v.clear(),
+        Op::SetTagName(n) => n.clear(),
         _ => {}
     }
 }
@@ -434,8 +435,8 @@ impl Prop for C11 {
     }
     fn plan(&self, tier: Tier) -> Plan {
         match tier {
-            Tier::Quick => Plan { cases: 60_000, tape_len: 220 },
-            Tier::Thorough => Plan { cases: 2_000_000, tape_len: 300 },
+            Tier::Quick => Plan { cases: 400_000, tape_len: 220 },
+            Tier::Thorough => Plan { cases: 12_000_000, tape_len: 300 },
         }
     }
     fn run(&self, tape: &[u16], st: &mut Stats) -> PResult {
@@ -482,8 +483,8 @@ impl Prop for C12 {
     }
     fn plan(&self, tier: Tier) -> Plan {
         match tier {
-            Tier::Quick => Plan { cases: 60_000, tape_len: 240 },
-            Tier::Thorough => Plan { cases: 2_000_000, tape_len: 320 },
+            Tier::Quick => Plan { cases: 400_000, tape_len: 240 },
+            Tier::Thorough => Plan { cases: 12_000_000, tape_len: 320 },
         }
     }
     fn run(&self, tape: &[u16], st: &mut Stats) -> PResult {
